@@ -25,13 +25,14 @@ ASSUMPTIONS = [
     'session counters: absent, None (what reset_error_counter stores) or any integer 0..2**16+2; failureCount 0..2**16 or absent; segment numbers / update counts 0..2**31; status codes from [400, 404, 499, 500, 503, 599] (the code is part of a session key)',
     'event schedules: every value passes through the event option parser (a ValueError there is the 400 answer); interval text from {-7, -1, 0, 1, 7}, event timescale text from {0, 1, 100}, start/count/duration any integer in [-2**40, 2**40] (count <= 6 for out-of-band listings, which materialise every event); one segment [a, a+d), a 0..2**40, d 1..8 ticks of a 100 Hz representation',
     'a kernel that passes the unwinding bound is replayed concretely under a 2 s alarm and reported as "runs without bound" if it does not return',
+    'UTF-8 decoding of a symbolic byte >= 0x80 inside the MP4 parser is nondeterministic: either UnicodeDecodeError or one character per byte',
     '"reported parse error" for Mp4Atom.load = an exception of the family (ValueError, struct.error, EOFError, IOError); nothing between the parser and the HTTP response catches anything else',
 ]
 OUTSIDE = [
     'the HTTP surface as such: router, HTML/REST management endpoints, database state, uploads through werkzeug',
     'non-ASCII query text; option strings longer than the stated bounds (date-time option values are covered by C19 on their grammar)',
     'Jinja template rendering with out-of-range option values (C05), including the out-of-band SCTE-35 XML payload',
-    'MP4 corruption other than: the 32-bit size field of one box (any value in [0,24], true size +-8, distance to end of file +-8, >= 2**31-1) and input cut at any of the 13 bytes from a box start; bit flips in box payloads are covered for non-structural bytes by C04.exc',
+    'MP4 corruption other than: one 4-byte payload word of a box (same value windows plus 2**31 +-8 and 2**32-9..2**32-1), the 32-bit size field of one box (any value in [0,24], true size +-8, distance to end of file +-8, >= 2**31-1) and input cut at any of the 13 bytes from a box start; bit flips in box payloads are covered for non-structural bytes by C04.exc',
 ]
 
 INTERVALS = [-7, -1, 0, 1, 7]
@@ -711,14 +712,57 @@ def _flat_boxes(name):
     return data, out
 
 
+def _payload_words(name):
+    """4-byte aligned words of box payloads (box headers and large mdat tails excluded)"""
+    from . import c04_mp4_roundtrip as c04
+    data, boxes = _flat_boxes(name)
+    hdr = set()
+    for path, start, size in boxes:
+        hdr.update(range(start, start + 8))
+    skip = c04._candidate_ranges(data)
+    out = []
+    for w in range(0, len(data) - 3, 4):
+        if any(i in hdr for i in range(w, w + 4)):
+            continue
+        if any(a <= w < b for a, b in skip):
+            continue
+        out.append(w)
+    return data, out
+
+
+def _load_like_the_endpoints(buf, kw, lazy, real):
+    """Mp4Atom.load through the repository's own BufferedReader, as the inspect / index endpoints do"""
+    from dashlive.mpeg import mp4
+    from dashlive.utils.buffered_reader import BufferedReader
+    if real:
+        import io
+        raw = io.BytesIO(buf)
+    else:
+        from pysx import iomodel
+        raw = iomodel.SxBytesIO(buf)
+    src = BufferedReader(raw)
+    return mp4.Mp4Atom.load(src, options=mp4.Options(mode='r', lazy_load=lazy, **kw), use_wrapper=True)
+
+
 def scen_mp4(G, name, box, lazy, mode):
     """mode 'size': the 32-bit size field of one box is any value; mode 'cut': the input ends at any
     of the 12 bytes after that box's start (header and first fields cut short) with the box's
-    own size field symbolic as well"""
+    own size field symbolic as well; mode 'word': one 4-byte payload word (version/flags, counts,
+    times, offsets ...) is symbolic"""
     from . import c04_mp4_roundtrip as c04
-    data, boxes = _flat_boxes(name)
-    path, start, size0 = boxes[box]
     kw = c04.FILES[name][2]
+    if mode == 'word':
+        data, words = _payload_words(name)
+        start = words[box]
+        # name the field by its box and its offset inside the box
+        _, boxes = _flat_boxes(name)
+        inner = [(p, st, sz) for p, st, sz in boxes if st <= start < st + sz]
+        bp, bst, _sz = max(inner, key=lambda t: t[1]) if inner else ('?', 0, 0)
+        path = f'{bp}+{start - bst}'
+    else:
+        data, boxes = _flat_boxes(name)
+        path, start, size0 = boxes[box]
+    true_val = int.from_bytes(data[start:start + 4], 'big')
     bs = [G.int(f'size[{i}]', 0, 255) for i in range(4)]
     cut = None
     if mode == 'cut':
@@ -730,19 +774,25 @@ def scen_mp4(G, name, box, lazy, mode):
     else:
         from pysx.bytes_ import SymBytes
         from pysx.core import sx_or, sx_and
+        from pysx import core
         sz = ((bs[0] * 256 + bs[1]) * 256 + bs[2]) * 256 + bs[3]
-        # every size behaves differently up to the end of the file; the claim covers the windows
-        # where the arithmetic changes: tiny sizes, the true size +-8, the end of the file +-8, huge
-        G.sx.assume(sx_or(sz <= 24, sx_and(sz >= size0 - 8, sz <= size0 + 8),
-                          sx_and(sz >= len(data) - start - 8, sz <= len(data) - start + 8),
-                          sz >= 2 ** 31 - 1),
-                    'size field in [0,24] or true size +-8 or distance to end of file +-8 or >= 2**31-1')
+        # every value behaves differently up to the end of the file; the claim covers the windows
+        # where the arithmetic changes: tiny values, the true value +-8, the end of the file +-8, huge
+        wins = [sz <= 24, sx_and(sz >= true_val - 8, sz <= true_val + 8),
+                sx_and(sz >= len(data) - start - 8, sz <= len(data) - start + 8)]
+        if mode == 'word':
+            wins += [sx_and(sz >= 2 ** 31 - 9, sz <= 2 ** 31 + 8), sz >= 2 ** 32 - 9]
+        else:
+            wins += [sz >= 2 ** 31 - 1]
+        G.sx.assume(sx_or(*wins), 'field value in [0,24], true value +-8, distance to end of file +-8, around 2**31 / 2**32')
         buf = SymBytes.make(data, {start + i: bs[i] for i in range(4) if not isinstance(bs[i], int)})
         if cut is not None:
             buf = buf[:cut]
+        core.ctx().env['range_limit'] = 100000
+        core.ctx().env['utf8_nondet'] = True
 
     def run():
-        atom = c04._load_any(buf, kw, 'r', lazy)
+        atom = _load_like_the_endpoints(buf, kw, lazy, G.real)
         if lazy:
             c04._force_lazy(atom)
         return len(atom.children)
@@ -763,9 +813,11 @@ def scen_mp4(G, name, box, lazy, mode):
 def h_mp4(sx, name, box, lazy, mode):
     r = scen_mp4(SymG(sx), name, box, lazy, mode)
     ok = r['outcome'] == 'ok' or r['outcome'] in FAMILY
-    region = '' if ok else f"@{r['outcome']}:{r['site']}"
+    region = '' if ok else f"@{r['outcome']}:{r['site'] if r['site'] else r['box'].split('.')[-1]}"
     sx.prove(ok, 'C16.mp4' + region, detail=dict(r))
-    sx.note('expect', {'outcome': r['outcome'], 'site': r['site']})
+    from pysx import core
+    if not core.ctx().env.get('nondet_used'):      # an over-approximated step has no single expected outcome
+        sx.note('expect', {'outcome': r['outcome'], 'site': r['site']})
 
 
 # ---------------------------------------------------------------------------
@@ -832,6 +884,13 @@ def instances(tier):
                     out.append({'name': f'mp4[{name},{path}@{start},{"lazy" if lazy else "eager"},{mode}]', 'fn': h_mp4,
                                 'params': {'name': name, 'box': k, 'lazy': lazy, 'mode': mode},
                                 'opts': {'max_paths': 6000, 'max_decisions': 3000, 'fork_limit': 1 << 20, 'time_budget_s': 300}, 'weight': 20})
+    for name in (['moov', 'tseg', 'ebuttd'] if tier == 'quick' else MP4_FILES_T):
+        _, words = _payload_words(name)
+        for k, w in enumerate(words):
+            for lazy in ((False,) if tier == 'quick' else (False, True)):
+                out.append({'name': f'mp4[{name},word@{w},{"lazy" if lazy else "eager"},word]', 'fn': h_mp4,
+                            'params': {'name': name, 'box': k, 'lazy': lazy, 'mode': 'word'},
+                            'opts': {'max_paths': 6000, 'max_decisions': 3000, 'fork_limit': 4096, 'time_budget_s': 300}, 'weight': 10})
     return out
 
 
